@@ -906,6 +906,12 @@ func (c *e1ctx) discharge(s *e1.Site) (string, bool) {
 		if r, ok := c.ruleIndexOf(s); ok {
 			return r, true
 		}
+		if r, ok := c.ruleParallel(s); ok {
+			return r, true
+		}
+		if r, ok := c.ruleRowLiteral(s); ok {
+			return r, true
+		}
 		if r, ok := ruleFieldName(s); ok {
 			return r, true
 		}
@@ -2521,29 +2527,8 @@ func (c *e1ctx) ruleIndexOf(s *e1.Site) (string, bool) {
 			if !isPrm || (bound != nil && bound != prm) {
 				continue
 			}
-			// the counter never goes down: a phi of a non-negative constant and itself plus a positive constant
-			ph, isPhi := v.(*ssa.Phi)
-			if !isPhi {
-				continue
-			}
-			okPhi := true
-			for _, e := range ph.Edges {
-				if k, isK := su.ConstInt(e); isK {
-					if k < 0 {
-						okPhi = false
-					}
-					continue
-				}
-				add, isAdd := e.(*ssa.BinOp)
-				if !isAdd || add.Op != token.ADD || add.X != ssa.Value(ph) {
-					okPhi = false
-					continue
-				}
-				if k, isK := su.ConstInt(add.Y); !isK || k <= 0 {
-					okPhi = false
-				}
-			}
-			if okPhi {
+			// the counter never goes down
+			if monotoneCounter(v) {
 				bound, found = prm, true
 			}
 		}
@@ -2560,7 +2545,10 @@ func (c *e1ctx) ruleIndexOf(s *e1.Site) (string, bool) {
 			pi = i
 		}
 	}
-	if pi < 0 || pi >= len(call.Call.Args) || su.Strip(call.Call.Args[pi]) != su.Strip(sl) {
+	if pi < 0 || pi >= len(call.Call.Args) {
+		return "", false
+	}
+	if su.Strip(call.Call.Args[pi]) != su.Strip(sl) && !madeWithLenOf(sl, call.Call.Args[pi]) {
 		return "", false
 	}
 	env := &descEnv{p: c.p, params: map[*ssa.Parameter]string{}, noInline: true}
@@ -2571,4 +2559,276 @@ func (c *e1ctx) ruleIndexOf(s *e1.Site) (string, bool) {
 		return "", false
 	}
 	return "R-indexof: the index is the answer of the search helper " + load.FuncName(h) + " over this very slice (a negative constant or a counter below len), used after the negative answer was excluded", true
+}
+
+// madeWithLenOf: x is make([]T, len(s)) for this very s (a slice kept parallel to s; its length never changes
+// because the SSA value is the slice header the make produced).
+func madeWithLenOf(x, s ssa.Value) bool {
+	mk, ok := su.Strip(x).(*ssa.MakeSlice)
+	if !ok {
+		return false
+	}
+	of, isLen := lenArg(mk.Len)
+	return isLen && su.Strip(of) == su.Strip(s)
+}
+
+// ruleParallel (R-parallel): X[i] in a helper where X is a parameter, i is a counter the helper's own loop keeps
+// below len(P) of another parameter P (or the index of a range over P), and every static caller hands over an X
+// that was made with the length of the P it hands over (make([]T, len(p))): the two slices are parallel.
+func (c *e1ctx) ruleParallel(s *e1.Site) (string, bool) {
+	var sl, idx ssa.Value
+	switch x := s.Instr.(type) {
+	case *ssa.IndexAddr:
+		sl, idx = x.X, x.Index
+	case *ssa.Index:
+		sl, idx = x.X, x.Index
+	default:
+		return "", false
+	}
+	fn := s.Instr.Parent()
+	xp, ok := su.Strip(sl).(*ssa.Parameter)
+	if !ok || xp.Parent() != fn {
+		return "", false
+	}
+	// the bound: a dominating `idx < len(P)` on the true edge, P a parameter
+	var bound *ssa.Parameter
+	blk := s.Instr.Block()
+	for d := blk; d != nil; d = d.Idom() {
+		iff, isIf := d.Instrs[len(d.Instrs)-1].(*ssa.If)
+		if !isIf || d == blk {
+			continue
+		}
+		bo, isBo := iff.Cond.(*ssa.BinOp)
+		if !isBo || bo.Op != token.LSS || bo.X != idx {
+			continue
+		}
+		if !(d.Succs[0] == blk || d.Succs[0].Dominates(blk)) || len(d.Succs[0].Preds) != 1 {
+			continue
+		}
+		of, isLen := lenArg(bo.Y)
+		if !isLen {
+			continue
+		}
+		if prm, isPrm := su.Strip(of).(*ssa.Parameter); isPrm && prm.Parent() == fn && prm != xp {
+			bound = prm
+		}
+	}
+	if bound == nil {
+		return "", false
+	}
+	// the counter starts at a non-negative constant and only goes up
+	if ph, isPhi := idx.(*ssa.Phi); isPhi {
+		for _, e := range ph.Edges {
+			if k, isK := su.ConstInt(e); isK {
+				if k < 0 {
+					return "", false
+				}
+				continue
+			}
+			add, isAdd := e.(*ssa.BinOp)
+			if !isAdd || add.Op != token.ADD || add.X != ssa.Value(ph) {
+				return "", false
+			}
+			if k, isK := su.ConstInt(add.Y); !isK || k <= 0 {
+				return "", false
+			}
+		}
+	} else if add, isAdd := idx.(*ssa.BinOp); isAdd && add.Op == token.ADD {
+		// the rotated form of a range loop: index = phi + 1 with phi starting at -1
+		ph, isPhi := add.X.(*ssa.Phi)
+		k, isK := su.ConstInt(add.Y)
+		if !isPhi || !isK || k != 1 {
+			return "", false
+		}
+		for _, e := range ph.Edges {
+			if k0, isK0 := su.ConstInt(e); isK0 {
+				if k0 < -1 {
+					return "", false
+				}
+				continue
+			}
+			if e != ssa.Value(add) {
+				return "", false
+			}
+		}
+	} else {
+		return "", false
+	}
+	xi, bi := -1, -1
+	for i, q := range fn.Params {
+		if q == xp {
+			xi = i
+		}
+		if q == bound {
+			bi = i
+		}
+	}
+	n := 0
+	for _, caller := range c.p.Repo {
+		for _, cs := range su.CallsTo(caller, fn) {
+			n++
+			if xi >= len(cs.Call.Args) || bi >= len(cs.Call.Args) || !madeWithLenOf(cs.Call.Args[xi], cs.Call.Args[bi]) {
+				return "", false
+			}
+		}
+	}
+	if n == 0 {
+		return "", false
+	}
+	return fmt.Sprintf("R-parallel: the index is a counter below len(%s) and every one of the %d caller(s) hands over a %s made with that length", bound.Name(), n, xp.Name()), true
+}
+
+// monotoneCounter: v is a loop counter that starts at a non-negative constant and only goes up - a phi of such a
+// constant and itself plus a positive constant, or the rotated form of a range loop (phi + 1 with the phi starting
+// at -1).
+func monotoneCounter(v ssa.Value) bool {
+	if ph, isPhi := v.(*ssa.Phi); isPhi {
+		for _, e := range ph.Edges {
+			if k, isK := su.ConstInt(e); isK {
+				if k < 0 {
+					return false
+				}
+				continue
+			}
+			add, isAdd := e.(*ssa.BinOp)
+			if !isAdd || add.Op != token.ADD || add.X != ssa.Value(ph) {
+				return false
+			}
+			if k, isK := su.ConstInt(add.Y); !isK || k <= 0 {
+				return false
+			}
+		}
+		return true
+	}
+	add, isAdd := v.(*ssa.BinOp)
+	if !isAdd || add.Op != token.ADD {
+		return false
+	}
+	ph, isPhi := add.X.(*ssa.Phi)
+	k, isK := su.ConstInt(add.Y)
+	if !isPhi || !isK || k != 1 {
+		return false
+	}
+	for _, e := range ph.Edges {
+		if k0, isK0 := su.ConstInt(e); isK0 {
+			if k0 < -1 {
+				return false
+			}
+			continue
+		}
+		if e != ssa.Value(add) {
+			return false
+		}
+	}
+	return true
+}
+
+// ruleRowLiteral (R-rows): rows[i][k] with a constant k where `rows` is a table built in this function (or the
+// function enclosing this closure) only by appending slice literals, each with more than k elements; nothing else of
+// the table's type is produced there (no make, no call result, no parameter).
+func (c *e1ctx) ruleRowLiteral(s *e1.Site) (string, bool) {
+	var sl, idx ssa.Value
+	switch x := s.Instr.(type) {
+	case *ssa.IndexAddr:
+		sl, idx = x.X, x.Index
+	case *ssa.Index:
+		sl, idx = x.X, x.Index
+	default:
+		return "", false
+	}
+	k, isK := su.ConstInt(idx)
+	if !isK || k < 0 {
+		return "", false
+	}
+	// the row: an element of a table
+	ld, ok := sl.(*ssa.UnOp)
+	if !ok || ld.Op != token.MUL {
+		return "", false
+	}
+	ia, ok := ld.X.(*ssa.IndexAddr)
+	if !ok {
+		return "", false
+	}
+	tt := ia.X.Type()
+	if _, isSl := tt.Underlying().(*types.Slice); !isSl {
+		return "", false
+	}
+	outer := s.Instr.Parent()
+	for outer.Parent() != nil {
+		outer = outer.Parent()
+	}
+	for _, prm := range outer.Params {
+		if types.Identical(prm.Type(), tt) {
+			return "", false
+		}
+	}
+	minRow := int64(-1)
+	nApp := 0
+	for _, fn := range append([]*ssa.Function{outer}, allAnon(outer)...) {
+		for _, b := range fn.Blocks {
+			for _, ins := range b.Instrs {
+				v, isVal := ins.(ssa.Value)
+				if !isVal || !types.Identical(v.Type(), tt) {
+					continue
+				}
+				switch x := ins.(type) {
+				case *ssa.Phi, *ssa.UnOp, *ssa.Slice:
+					continue // moves of the table
+				case *ssa.Call:
+					bi, isB := x.Call.Value.(*ssa.Builtin)
+					if !isB || bi.Name() != "append" || len(x.Call.Args) != 2 {
+						return "", false
+					}
+					// the appended rows: slice of a fresh array whose elements are slice literals
+					vs, ok := x.Call.Args[1].(*ssa.Slice)
+					if !ok {
+						return "", false
+					}
+					arr, ok := vs.X.(*ssa.Alloc)
+					if !ok {
+						return "", false
+					}
+					rows := 0
+					for _, ref := range *arr.Referrers() {
+						ea, ok := ref.(*ssa.IndexAddr)
+						if !ok {
+							continue
+						}
+						for _, r2 := range *ea.Referrers() {
+							st, ok := r2.(*ssa.Store)
+							if !ok || st.Addr != ssa.Value(ea) {
+								continue
+							}
+							rs, ok := st.Val.(*ssa.Slice)
+							if !ok || rs.Low != nil || rs.High != nil {
+								return "", false
+							}
+							ra, ok := rs.X.(*ssa.Alloc)
+							if !ok {
+								return "", false
+							}
+							at, ok := ra.Type().(*types.Pointer).Elem().Underlying().(*types.Array)
+							if !ok {
+								return "", false
+							}
+							rows++
+							if minRow < 0 || at.Len() < minRow {
+								minRow = at.Len()
+							}
+						}
+					}
+					if rows == 0 {
+						return "", false
+					}
+					nApp++
+				default:
+					return "", false
+				}
+			}
+		}
+	}
+	if nApp == 0 || minRow <= k {
+		return "", false
+	}
+	return fmt.Sprintf("R-rows: the table is built only by appending slice literals of at least %d elements (%d append(s)); the constant index %d is inside every row", minRow, nApp, k), true
 }
